@@ -615,8 +615,68 @@ def run_badclass_probe(sh):
     G.unload(mod)
 
 
+IFCFF_SRC = """
+from pymtl3 import *
+class SinkIfc(Interface):
+  def construct(s):
+    s.msg = InPort(8); s.en = InPort()
+class Sink(Component):
+  def construct(s):
+    s.recv = SinkIfc(); s.many = [SinkIfc() for _ in range(2)]; s.plain = InPort(8)
+    s.out = OutPort(8); s.seen = OutPort(8); s.m1 = OutPort(8)
+    s.out //= s.recv.msg; s.seen //= s.plain; s.m1 //= s.many[1].msg
+class Sink2(Sink):
+  pass
+class FTop(Component):
+  def construct(s):
+    s.in_ = InPort(8); s.out = OutPort(8); s.seen = OutPort(8); s.m1 = OutPort(8)
+    s.sink = Sink()
+    s.out //= s.sink.out; s.seen //= s.sink.seen; s.m1 //= s.sink.m1
+    @update_ff
+    def ff_drive():               # the parent's flip-flop block drives ports of the child: plain, inside an interface, inside a list of interfaces
+      s.sink.recv.msg <<= s.in_
+      s.sink.plain <<= s.in_ + 1
+      s.sink.many[1].msg <<= s.in_ + 2
+"""
+
+
+def run_ifc_ff_probe(sh):
+  """registers that are PORTS OF THE CHILD written by a flip-flop block of the parent - plain, inside an interface of the child,
+  inside a list of interfaces: after replacing the child (by class, by object, twice) they are still registers (same double-buffer
+  marks as in a design built from scratch) and the design simulates like it"""
+  from pymtl3 import DefaultPassGroup
+  from vlib import specgen as G
+  mod = G.load_source(IFCFF_SRC, "c15ifcff")
+  try:
+    def trace(top):
+      top.apply(DefaultPassGroup()); top.sim_reset(); out = []
+      for v in (5, 9, 200, 7, 0, 33):
+        top.in_ @= v; top.sim_tick(); out.append((int(top.out), int(top.seen), int(top.m1)))
+      return out
+    def marks(top):
+      return sorted(repr(x) for x in top.get_all_object_filter(lambda x: getattr(getattr(x, "_dsl", None), "needs_double_buffer", False)))
+    ref = mod.FTop(); ref.elaborate(); want_marks = marks(ref); want = trace(ref)
+    for hist in (["class"], ["obj"], ["class", "obj"], ["obj", "class"]):
+      top = mod.FTop(); top.elaborate()
+      for how in hist:
+        if how == "class": top.replace_component(top.sink, mod.Sink2)
+        else: top.replace_component_with_obj(top.sink, mod.Sink2())
+      sh.count("replaced_child_register_port_histories")
+      gm = marks(top)
+      if gm != want_marks:
+        sh.violation("double-buffer-marks-differ-from-a-design-built-from-scratch", {"history": hist, "missing": sorted(set(want_marks) - set(gm)), "extra": sorted(set(gm) - set(want_marks))}, case=("ifcff", tuple(hist))); continue
+      try: got = trace(top)
+      except Exception as e:
+        sh.violation("replaced-design-does-not-simulate", {"history": hist, "error": f"{type(e).__name__}: {str(e)[:200]}"}, case=("ifcff-sim", tuple(hist))); continue
+      if got != want:
+        sh.violation("replaced-design-simulates-differently", {"history": hist, "trace(out, seen, m1)": got, "from_scratch": want}, case=("ifcff-trace", tuple(hist)))
+  finally:
+    G.unload(mod)
+
+
 def run_shard(sh):
   if sh.idx == 0: run_badclass_probe(sh)
+  if sh.idx == 1: run_ifc_ff_probe(sh)
   for case in range(max(3, sh.params["histories"] // 3)):
     run_cl_case(sh, case)
   for case in range(max(4, sh.params["histories"] // 2)):
